@@ -65,8 +65,23 @@ static int vr_requested(unsigned t)
     }
     return 0;      /* everything else was not sent by this client (no extension callback in this unit) */
 }
+/* does the extension block (2-byte total length, then type16 | len16 | body entries) contain an extension of type t
+   among its first three entries (the bound of this unit) */
+static int vr_has_ext(unsigned t)
+{
+    unsigned off = 2, k;
+    for (k = 0; k < 3; k++)
+    {
+        if (off + 4 > g_in.len) { return 0; }
+        if ((unsigned) ((g_in.buf[off] << 8) | g_in.buf[off + 1]) == t) { return 1; }
+        off += 4 + (unsigned) ((g_in.buf[off + 2] << 8) | g_in.buf[off + 3]);
+    }
+    return 0;
+}
 #define OK (RET >= 0)
 #define POSTS(P) \
+    P(C07_ems_is_switched_on_only_if_the_server_sent_it, IMPLIES(OK && g_ssl.extFlags.extended_master_secret && !g_ext0.extended_master_secret, vr_has_ext(EXT_EXTENDED_MASTER_SECRET))) \
+    P(C07_required_ems_is_enforced,                IMPLIES(OK && g_ext0.require_extended_master_secret && g_ext0.req_extended_master_secret, g_ssl.extFlags.extended_master_secret == 1 && vr_has_ext(EXT_EXTENDED_MASTER_SECRET))) \
     P(C07_accepted_first_extension_was_requested,  IMPLIES(OK && HAS_FIRST, vr_requested(T0))) \
     P(C07_accepted_second_extension_was_requested, IMPLIES(OK && HAS_FIRST && HAS_SECOND, vr_requested(T1))) \
     P(verdict_is_documented,           OK || RET == MATRIXSSL_ERROR) \
